@@ -48,6 +48,23 @@ fn esc(b: &[u8]) -> String { b.iter().map(|c| std::ascii::escape_default(*c).to_
 
 fn main() {
     let a: Vec<String> = std::env::args().collect();
+    if a[1] == "policy" {
+        // seqio_replay policy <std|du|dul> <current_size> [double_until] [limit]
+        use seq_io::policy::{BufPolicy, DoubleUntil, StdPolicy};
+        let cur: usize = a[3].parse().unwrap();
+        let du: usize = a.get(4).map(|x| x.parse().unwrap()).unwrap_or(1 << 23);
+        let limit: Option<usize> = a.get(5).map(|x| x.parse().unwrap());
+        let r = std::panic::catch_unwind(|| match a[2].as_str() {
+            "std" => StdPolicy.grow_to(cur),
+            "du" => DoubleUntil(du).grow_to(cur),
+            _ => DoubleUntilLimited::new(du, limit.unwrap()).grow_to(cur),
+        });
+        let want = if cur < du { cur.checked_mul(2) } else { cur.checked_add(du) };
+        let want = match (want, limit) { (Some(w), Some(l)) if w > l => None, (w, _) => w };
+        let got = match r { Ok(v) => format!("{:?}", v), Err(_) => "panicked".to_string() };
+        println!("grow_to({}) -> {}   documented: {:?}", cur, got, want);
+        return;
+    }
     let fmt = a[1].as_str();
     let cap: usize = a[2].parse().unwrap();
     let data = unescape(&a[3]);
